@@ -122,9 +122,9 @@ MacroAck(S0, c, P) == LET o == Cp(c)  h == S0.ch[o].h + 1 IN
 BlocksToElapse(S0, c, P) == LET o == Cp(c) IN
     IF P.proto = "v1"
     THEN LET nh == IF P.toH # 0 THEN P.toH - S0.ch[o].h ELSE 0
-             nt == IF P.toT # 0 THEN ((P.toT - S0.now) \div 2) + 1 ELSE 0
+             nt == IF P.toT # 0 THEN ((P.toT - (S0.now + Skew(o))) \div 2) + 1 ELSE 0
          IN IF P.toH # 0 /\ (P.toT = 0 \/ nh <= nt) THEN nh ELSE nt
-    ELSE (P.toT * 2 - S0.now) \div 2 + 1
+    ELSE (P.toT * 2 - (S0.now + Skew(o))) \div 2 + 1
 
 MacroTimeout(S0, c, P) == LET o == Cp(c)
                               n == IF BlocksToElapse(S0, c, P) < 1 THEN 1 ELSE BlocksToElapse(S0, c, P)
@@ -148,7 +148,7 @@ MacroRecvEdgeH(S0, c, P, k) == LET o == Cp(c)  h == S0.ch[o].h + 1
     << Upd(c, h), [a |-> Proto(P, "Recv"), c |-> c, dt |-> 1, pkt |-> P, ph |-> h] >>
 
 MacroRecvEdgeT(S0, c, P, k) == LET o == Cp(c)  h == S0.ch[o].h + 1
-                                   d == EdgeTick(P) - k - (S0.now + 2) IN
+                                   d == EdgeTick(P) - k - (S0.now + Skew(c) + 2) IN
     << Blk(o, 1), Upd(c, h), [a |-> Proto(P, "Recv"), c |-> c, dt |-> d, pkt |-> P, ph |-> h] >>
 
 MacroTimeoutEdgeH(S0, c, P, k) == LET o == Cp(c)
@@ -159,7 +159,7 @@ MacroTimeoutEdgeH(S0, c, P, k) == LET o == Cp(c)
                    nsr |-> IF KIND = "ORDERED" THEN S0.ch[o].cur.nr ELSE 1] >>
 
 MacroTimeoutEdgeT(S0, c, P, k) == LET o == Cp(c)
-                                      d == EdgeTick(P) - k - S0.now
+                                      d == EdgeTick(P) - k - (S0.now + Skew(o))
                                       h == S0.ch[o].h + 1 IN
     << Blk(o, d), Upd(c, h), [a |-> Proto(P, "Timeout"), c |-> c, dt |-> 1, pkt |-> P, ph |-> h,
                               nsr |-> IF KIND = "ORDERED" THEN S0.ch[o].cur.nr ELSE 1] >>
@@ -190,7 +190,7 @@ RaceMacros(S0) == UNION {
          { MacroRecvEdgeH(S0, c, P, 0) \o RaceTail(S0, c, P, P.toH)
              : P \in { Q \in PendingRecv(S0, c) : Q.proto = "v1" /\ Q.toH # 0 /\ Q.toH - 2 - S0.ch[c].h \in 0..8 } }
     \cup { MacroRecvEdgeT(S0, c, P, 0) \o RaceTail(S0, c, P, S0.ch[c].h + 2)
-             : P \in { Q \in PendingRecv(S0, c) : Q.toT # 0 /\ EdgeTick(Q) - (S0.now + 2) \in 1..40 } }
+             : P \in { Q \in PendingRecv(S0, c) : Q.toT # 0 /\ EdgeTick(Q) - (S0.now + Skew(c) + 2) \in 1..40 } }
       : c \in Chains }
 
 \* Use of an expired client (only in runs with a short trusting period): the proof height is held by the client,
@@ -200,8 +200,8 @@ ExpiredMacros(S0) == IF TP > 1000 THEN {} ELSE UNION {
            << Blk(o, 1), Upd(c, h), Blk(c, TP + 1),
               [a |-> Proto(P, "Recv"), c |-> c, dt |-> 1, pkt |-> P, ph |-> h] >>
            : P \in { Q \in PendingRecv(S0, c) :
-                        IF Q.proto = "v1" THEN (Q.toT = 0 \/ Q.toT > S0.now + TP + 4) /\ (Q.toH = 0 \/ Q.toH > S0.ch[c].h + 4)
-                                          ELSE 2 * Q.toT > S0.now + TP + 4 } }
+                        IF Q.proto = "v1" THEN (Q.toT = 0 \/ Q.toT > S0.now + Skew(c) + TP + 4) /\ (Q.toH = 0 \/ Q.toH > S0.ch[c].h + 4)
+                                          ELSE 2 * Q.toT > S0.now + Skew(c) + TP + 4 } }
     \cup { LET o == Cp(c)  h == S0.ch[o].h + 1 IN
            << Blk(o, 1), Upd(c, h), Blk(c, TP + 1),
               [a |-> Proto(P, "Ack"), c |-> c, dt |-> 1, pkt |-> P, ph |-> h, ack |-> S0.ch[o].cur.ack[Key(P)], canon |-> TRUE] >>
@@ -218,11 +218,11 @@ EdgeMacros(S0) == StaleMacros(S0) \cup RaceMacros(S0) \cup ExpiredMacros(S0) \cu
          { MacroRecvEdgeH(S0, c, P, k) : P \in { Q \in PendingRecv(S0, c) : Q.proto = "v1" /\ Q.toH # 0
                                                    /\ Q.toH - k - 2 - S0.ch[c].h \in 0..8 } }
     \cup { MacroRecvEdgeT(S0, c, P, k) : P \in { Q \in PendingRecv(S0, c) : Q.toT # 0
-                                                   /\ EdgeTick(Q) - k - (S0.now + 2) \in 1..40 } }
+                                                   /\ EdgeTick(Q) - k - (S0.now + Skew(c) + 2) \in 1..40 } }
     \cup { MacroTimeoutEdgeH(S0, c, P, k) : P \in { Q \in PendingTimeout(S0, c) : Q.proto = "v1" /\ Q.toH # 0
                                                    /\ Q.toH - k - S0.ch[Cp(c)].h \in 1..8 } }
     \cup { MacroTimeoutEdgeT(S0, c, P, k) : P \in { Q \in PendingTimeout(S0, c) : Q.toT # 0
-                                                   /\ EdgeTick(Q) - k - S0.now \in 1..40 } }
+                                                   /\ EdgeTick(Q) - k - (S0.now + Skew(Cp(c))) \in 1..40 } }
       : k \in {0, 1} } : c \in Chains }
 
 Macros(S0) ==
@@ -250,7 +250,7 @@ Next ==
           /\ todo' = Follow(S, a, r) \o Tail(plan)
           /\ (Len(sched') = Depth \/ ~Bounded(r.S)) =>
                 JsonSerialize(OutDir \o "/s" \o ToString(TLCGet("stats").traces) \o "_" \o ToString(RandomElement(1..1000000)) \o ".json",
-                              [kind |-> KIND, tp |-> TP, acts |-> sched'])
+                              [kind |-> KIND, tp |-> TP, ska |-> SKEW_A, skb |-> SKEW_B, acts |-> sched'])
 
 Spec == Init /\ [][Next]_<<S, sched, todo>>
 =============================================================================
